@@ -702,6 +702,59 @@ func genRing(r *vproto.Rng, par [2]int, kind string, i int) *rtwire.Hist {
 	return h
 }
 
+// huge: coordinates on the grid {0..span}·2^e with e = 500, 505, 508 (span 1000, 60, 8): every squared distance is
+// an exact float64 between 2^1000 and 2^1024 - far above 1e300 and MaxFloat32^2, just below MaxFloat64 - and no
+// intermediate value of minDist / minMaxDist overflows (2·(span·2^e)^2 < 2^1024).  A search whose initial best
+// distance is anything smaller than MaxFloat64 never stores an object here.
+func genHuge(r *vproto.Rng, par [2]int, kind string, i int) *rtwire.Hist {
+	e := []int{500, 505, 508}[i%3]
+	span := []int{1000, 60, 8}[i%3]
+	u := math.Ldexp(1, e)
+	h := &rtwire.Hist{Min: par[0], Max: par[1], Kind: kind, Scale: u, KQs: []rtwire.KQ{},
+		Queries: []rtwire.Box{{MinX: 0, MinY: 0, MaxX: u, MaxY: u}}}
+	h.Class = fmt.Sprintf("nn-huge%d-%s-m%dM%d", e, kind, par[0], par[1])
+	n := 3 + r.Intn(4*par[1])
+	if n > 40 {
+		n = 40
+	}
+	seen := map[[2]int]bool{}
+	for tries := 0; len(h.Pool) < n+2 && tries < 4000; tries++ {
+		x, y := r.Range(0, span), r.Range(0, span)
+		if seen[[2]int{x, y}] {
+			continue
+		}
+		seen[[2]int{x, y}] = true
+		b := rtwire.Box{MinX: float64(x) * u, MinY: float64(y) * u, MaxX: float64(x) * u, MaxY: float64(y) * u}
+		if kind != "pt" && r.Chance(0.3) {
+			b.MaxX = float64(x+r.Intn(span-x+1)/4) * u
+			b.MaxY = float64(y+r.Intn(span-y+1)/4) * u
+		}
+		h.Pool = append(h.Pool, b)
+	}
+	n = len(h.Pool) - 2
+	s := &st{h: h}
+	ask := func(m int) {
+		for c := 0; c < m; c++ {
+			ks := []int{0, 1, 2, 0, 3, len(s.present), 1, len(s.present) + 2, 0}
+			s.ask(float64(r.Range(0, span))*u, float64(r.Range(0, span))*u, ks[(c+i)%len(ks)])
+		}
+	}
+	for id := 0; id < n; id++ {
+		s.ins(id)
+		if id < 3 {
+			ask(2)
+		}
+	}
+	ask(9)
+	for c := 0; c < 2 && len(s.present) > 1; c++ {
+		s.del(s.present[r.Intn(len(s.present))])
+	}
+	s.ins(n)
+	s.ins(n + 1)
+	ask(6)
+	return h
+}
+
 func gen(seed uint64, tier string) []*rtwire.Hist {
 	r := vproto.NewRng(seed ^ 0xC12)
 	var hs []*rtwire.Hist
@@ -973,6 +1026,31 @@ func gen(seed uint64, tier string) []*rtwire.Hist {
 	}
 	for i := 0; i < nring; i++ {
 		hs = append(hs, genRing(r, ringParams[i%len(ringParams)], rtwire.Kinds[(i/len(ringParams))%3], i))
+	}
+	// KNOWN finding (findings/C12.json): coordinates 2^600 apart - the squared distance overflows to +Inf, `dist < d`
+	// fails against the initial math.MaxFloat64, nothing is ever stored: NearestNeighbor panics on a non-empty tree
+	// and NearestNeighbors returns nil slots.  Judged by the Spec (class specOnly: tree areas overflow as well).
+	for _, kind := range rtwire.Kinds {
+		u := math.Ldexp(1, 600)
+		pool := []rtwire.Box{{MinX: 0, MinY: 0, MaxX: 0, MaxY: 0}, {MinX: u, MinY: 0, MaxX: u, MaxY: 0}, {MinX: 0, MinY: 2 * u, MaxX: 0, MaxY: 2 * u}}
+		h := &rtwire.Hist{Class: "nn-corpus-overflow-specOnly", Min: 2, Max: 4, Kind: kind, Pool: pool,
+			Queries: []rtwire.Box{{MinX: 0, MinY: 0, MaxX: 1, MaxY: 1}}, KQs: []rtwire.KQ{}}
+		s := &st{h: h}
+		for id := range pool {
+			s.ins(id)
+		}
+		s.ask(3*u, 0, 0)
+		s.ask(3*u, 0, 2)
+		s.ask(3*u, u, 1)
+		hs = append(hs, h)
+	}
+	nhuge := 18
+	if tier == "thorough" {
+		nhuge = 120
+	}
+	for i := 0; i < nhuge; i++ {
+		par := [][2]int{{2, 4}, {2, 3}, {3, 6}, {2, 5}, {4, 8}, {3, 7}}[i%6]
+		hs = append(hs, genHuge(r, par, rtwire.Kinds[(i/6)%3], i))
 	}
 	return hs
 }
